@@ -156,6 +156,55 @@ func supportChecks() []supportCheck {
 		}})
 	}
 
+	// --- partitioned bootstrap, partitions made of several ranges / of strides: every site of a part
+	// can be drawn at every position of its block
+	for _, v := range []struct {
+		name   string
+		ranges []prange
+	}{
+		{"two ranges per partition", []prange{{0, 0, 1, 1}, {1, 2, 5, 1}, {0, 6, 7, 1}, {1, 8, 8, 1}}},
+		{"strides", []prange{{0, 0, 8, 3}, {1, 1, 8, 3}, {2, 2, 8, 3}}},
+		{"stride then range", []prange{{0, 0, 3, 2}, {1, 1, 3, 2}, {0, 4, 6, 1}, {1, 7, 8, 1}}},
+	} {
+		v := v
+		const l = 9
+		rows := latin(2, l, distinctCells)
+		part, k := partitionOf(v.ranges, l)
+		var all []string
+		pos := 0
+		for p := 0; p < k; p++ {
+			var sites []int
+			for j := 0; j < l; j++ {
+				if part[j] == p {
+					sites = append(sites, j)
+				}
+			}
+			for i := range sites {
+				for _, s := range sites {
+					all = append(all, fmt.Sprintf("position %d = site %d", pos+i, s))
+				}
+			}
+			pos += len(sites)
+		}
+		add(supportCheck{Name: "partitioned bootstrap, " + v.name, All: all, PMin: 1.0 / 6, Run: func() []string {
+			al := gen.MustBuild(gen.Ali{Rows: rows, Alphabet: "aa"})
+			parts, err := al.Split(partitionSet(v.ranges, l))
+			if err != nil {
+				return []string{"error " + err.Error()}
+			}
+			var out []string
+			at := 0
+			for _, pa := range parts {
+				b := gen.Snapshot(pa.BuildBootstrap(1))
+				for p := 0; p < len(b[0].Seq); p++ {
+					out = append(out, fmt.Sprintf("position %d = site %d", at+p, strings.IndexByte(rows[0].Seq, b[0].Seq[p])))
+				}
+				at += len(b[0].Seq)
+			}
+			return out
+		}})
+	}
+
 	// --- sample: every subset of rows
 	for _, bag := range []bool{false, true} {
 		for _, nb := range []int{1, 2, 4} {
